@@ -163,6 +163,51 @@ class ReverseComplementLocated(Case):
         return out
 
 
+class ReverseComplementCompoundLocated(Case):
+    """Sequence.reverse_complement of a sequence that sits on its parent at a TWO-BLOCK location (an asymmetric layout:
+    the blocks differ in length and position): text = reverse complement; the recorded location covers the SAME parent
+    blocks on the opposite strand (it is not mirrored), so lifting a position of the result through it still lands on
+    the base it was read from."""
+    props = ("C03", "C04")
+    name = "Sequence.reverse_complement[located on two blocks, symbolic text]"
+    func = "sequence.sequence.Sequence.reverse_complement"
+    call = "(lambda r: (r, r.parent.location, r.parent.location.strand))(s.reverse_complement())"
+    ensures = {
+        "k-th-base-is-complement-of-base-n-1-k": lambda i, r: Implies(
+            And(0 <= i.k, i.k < i.n), _char(r[0].sequence, i.k) == _comp_code(_char(i.text, i.n - 1 - i.k))),
+        "recorded-location-same-blocks-opposite-strand": lambda i, r: And(
+            len(_blocks(r[1])) == 2, *[And(a[0] == s_, a[1] == e_) for a, s_, e_ in zip(_blocks(r[1]), i.starts, i.ends)],
+            Not(_same(r[2], i.strand))),
+    }
+
+    def inputs(self, S):
+        from .gene_common import block_lists, strand_of
+        starts, ends = block_lists(S, "loc", 2, allow_adjacent=False)
+        strand = strand_of(S, "strand")
+        text = S.symstr("text")
+        S.assume(slen(text) == (ends[0] - starts[0]) + (ends[1] - starts[1]))
+        loc = S.new(COMPOUND, starts, ends, strand)
+        s = S.new(SEQUENCE, text, S.enum_const(ALPHABET, "NT_STRICT"), type="piece", parent=S.new(PARENT, location=loc))
+        return NS(s=s, starts=starts, ends=ends, strand=strand, text=text, n=slen(text), k=S.int("k"))
+
+    def samples(self, rng):
+        from .gene_common import sample_blocks
+        d = sample_blocks(rng, "loc", 2, gap=(1, 3))
+        n = sum(e - s for s, e in zip(d["loc_starts"], d["loc_ends"]))
+        d.update(strand=rng.choice(["PLUS", "MINUS"]), text="".join(rng.choice("ACGT") for _ in range(n)), k=rng.randint(0, 8))
+        return d
+
+    def observe(self, r):
+        from .c02_single import obs_loc
+        t = r[0].sequence if hasattr(r[0], "attrs") else str(r[0])
+        return [t if isinstance(t, str) else None, obs_loc(r[1])[:3]]
+
+
+def _blocks(loc):
+    from .c02_single import blocks_of
+    return blocks_of(loc)
+
+
 class AppendLocated(Case):
     """Sequence.append of two pieces of one parent (each located on a single interval, same strand), symbolic texts of
     ANY length: the text is the concatenation, the recorded location is the union of the two locations (exactly the
@@ -216,6 +261,37 @@ class AppendLocated(Case):
 def _cov_loc(loc, p):
     from .c02_single import covers_pos
     return covers_pos(loc, p)
+
+
+class ToFasta(Case):
+    """Sequence.to_fasta(num_chars) (the FASTA section of a GFF3 / the sequence a re-parse attaches): header line
+    '>id', then the residues in order, EVERY residue exactly once, in lines of num_chars residues (the last line
+    shorter, never empty).  Complete domain: all lengths 1..13 x line widths 1, 2, 3, 5, 12 and lengths 59..62, 119..122
+    at the default width 60."""
+    props = ("C03", "C11")
+    name = "Sequence.to_fasta[all lengths 1..13 x widths; lengths around 60 and 120 at the default width]"
+    func = "sequence.sequence.Sequence.to_fasta"
+    module = "sequence.sequence"
+    call = "seq.to_fasta(w) if w is not None else seq.to_fasta()"
+    raises = {"EmptySequenceFastaError": lambda i: len(i.text) == 0}
+    ensures = {
+        "header-then-all-residues-in-order": lambda i, r: r.split("\n")[0] == ">s1" and "".join(r.split("\n")[1:]) == i.text,
+        "line-lengths": lambda i, r: all(len(x) == (i.w or 60) for x in r.split("\n")[1:-1]) and 0 < len(r.split("\n")[-1]) <= (i.w or 60),
+    }
+
+    def inputs(self, S):
+        text = S.const("text")
+        seq = S.new(SEQUENCE, text, S.enum_const(ALPHABET, "NT_STRICT"), id="s1")
+        return NS(seq=seq, text=text, w=S.const("w"))
+
+    def ground(self):
+        base = "ACGTTGCAAGCTTAGC"
+        mk = lambda n: (base * (n // len(base) + 1))[:n]  # noqa
+        for n in range(0, 14):
+            for w in (1, 2, 3, 5, 12):
+                yield dict(text=mk(n), w=w)
+        for n in (59, 60, 61, 62, 119, 120, 121, 122):
+            yield dict(text=mk(n), w=None)
 
 
 class ExtractCompound(Case):
@@ -341,4 +417,4 @@ def _chrom_base(i, p):
     return plus_strand_base if i.plus else _comp_code(plus_strand_base)
 
 
-CASES = [SliceLocated(), ReverseComplementLocated(), AppendLocated(), ExtractSingle(), ExtractCompound(2), ExtractCompound(3), SplicedOnChunk(1), SplicedOnChunk(2)]
+CASES = [SliceLocated(), ReverseComplementLocated(), ReverseComplementCompoundLocated(), AppendLocated(), ToFasta(), ExtractSingle(), ExtractCompound(2), ExtractCompound(3), SplicedOnChunk(1), SplicedOnChunk(2)]
